@@ -120,6 +120,7 @@ fn real_main(args: Vec<String>) -> i32 {
                 "C01" | "C02" | "C03" | "C04" | "C11" | "C16" => props::core::run(prop, &tier, seed),
                 "C05" => props::c05::run(&tier, seed),
                 "C12" => props::c12::run(&tier, seed),
+                "C20" => props::c20::run(&tier, seed),
                 _ => {
                     out!("MACHINERY-ERROR: unknown property {}", prop);
                     return 2;
